@@ -100,7 +100,7 @@ def run(ctx):
     tj = tojm_cases(rng, 600 if q else 100000)
     streams["tojm"] = [k + "\t" + d for k, d in tj]
     sized = []
-    for nel in (255, 256, 257, 65535 if not q else 300, 1000):
+    for nel in (255, 256, 257, 300, 1000):
         docs = ["[ " + " ".join("u%d" % (i % 10) for i in range(nel)) + " ]", G.enc_str("x" * nel), G.enc_str("é" * nel),
                 "{ " + " ".join(G.enc_str("k%05d" % i) + " u1" for i in range(nel)) + " }"]
         for d in docs:
